@@ -170,6 +170,27 @@ def drv_spe(which):
   return d
 
 
+def drv_prod_grad(rng):
+  nq, n, dim = rng.randint(1, 4), rng.randint(1, 3), rng.randint(1, 3)
+  poss = numpy.array([[rng.uniform(0, 1) for _ in range(n)] for _ in range(nq)])
+  gposs = numpy.array([[[rng.uniform(-1, 1) for _ in range(dim)] for _ in range(n)] for _ in range(nq)])
+  from libsigopt.compute.probabilistic_failures import FailureListProductComponents, ProductOfListOfProbabilisticFailures
+
+  class _P:
+    num_pfs = nq
+  out = ProductOfListOfProbabilisticFailures._compute_grad_probability_of_success(_P(), FailureListProductComponents(poss, gposs))
+  return dict(poss=poss, gposs=gposs), dict(nq=nq, dim=dim), [out]
+
+
+def _prod_grad_ir():
+  from . import ir
+  from .symeval import T
+  q, q2, i, k = ir.ix("q"), ir.ix("q2"), ir.ix("i"), ir.ix("k")
+  others = ("prod", "q2", "nq", ("ite_eq", q2, q, ir.const(1), ("var", "poss", (q2, i))))
+  body = ("bin", "*", ("var", "gposs", (q, i, k)), others)
+  return [("", T(("sum", "q", "nq", body), ("i", "k")))]
+
+
 def units():
   us = []
   hp = {"predictor": PREDICTOR, "best_value": ("best", [])}
@@ -207,6 +228,9 @@ def units():
   us.append(Unit("GenAcq", "Product", "value", PF, "_compute_probability_of_success", "ProductOfListOfProbabilisticFailures",
                  inputs={"failure_components": ("obj", {"poss": ("poss", ["q", "i"])}, "FailureListProductComponents")}, sizes={"q": "nq"},
                  out_idx=["i"], driver=drv_prod))
+  us.append(Unit("GenAcq", "Product", "grad", PF, "_compute_grad_probability_of_success", "ProductOfListOfProbabilisticFailures",
+                 inputs={"p": ("poss", ["q", "i"]), "g": ("gposs", ["q", "i", "k"])}, sizes={"q": "nq", "k": "dim"}, hand=_prod_grad_ir(),
+                 driver=drv_prod_grad, note="HAND-WRITTEN IR of the masked-product loop (sum_q grad_q * prod_{q' != q} pos_q'); tied by self-check"))
   un = ("obj", {"_evaluate_at_point_list": ("stub", ("af", ["i"])),
                 "joint_function_gradient_eval": ("stub", [("af", ["i"]), ("g", ["i", "kk"])])}, None)
   us.append(Unit("GenAcq", "MultitaskAF", "value", MAF, "_evaluate_at_point_list", "MultitaskAcquisitionFunction",
